@@ -96,7 +96,14 @@ func ToLib(f *RFrame) knxnet.Service {
 	case SvcSearchRes:
 		return &knxnet.SearchRes{Control: toHostInfo(f.Control), DescriptionB: knxnet.DescriptionBlock{DeviceHardware: toDevInfo(f.Dev), SupportedServices: toFamilies(f.Fam)}}
 	case SvcDescrRes:
-		return &knxnet.DescriptionRes{DeviceHardware: toDevInfo(f.Dev), SupportedServices: toFamilies(f.Fam)}
+		r := &knxnet.DescriptionRes{DeviceHardware: toDevInfo(f.Dev), SupportedServices: toFamilies(f.Fam)}
+		// the blocks the decoder keeps without interpreting them: the four kept types, with data, well-formed
+		for _, x := range f.Extra {
+			if KeptDIB(x) {
+				r.UnknownBlocks = append(r.UnknownBlocks, knxnet.UnknownDescriptionBlock{Type: knxnet.DescriptionType(x.Type), Data: append([]byte{}, x.Body...)})
+			}
+		}
+		return r
 	case SvcConnReq:
 		return &knxnet.ConnReq{Control: toHostInfo(f.Control), Tunnel: toHostInfo(f.Tunnel), Layer: knxnet.TunnelLayer(f.Layer)}
 	case SvcConnRes:
@@ -240,4 +247,10 @@ func scribble(v reflect.Value, depth int) {
 			v.SetString("scribbled")
 		}
 	}
+}
+
+// KeptDIB: a further description block that the decoder of a description response keeps (type 3, 4, 5 or 0xFE, at
+// least one data octet, length octet true); every other well-formed block is skipped.
+func KeptDIB(x RDIB) bool {
+	return (x.Type == 3 || x.Type == 4 || x.Type == 5 || x.Type == 0xfe) && len(x.Body) > 0 && int(x.Len) == 2+len(x.Body)
 }
